@@ -22,7 +22,7 @@ LEAN_PROOFS = ['Proofs.C04', 'Proofs.C04.SpecKat']
 GEN_ITEMS = ['KeccakG']
 RULE = ('op lines = (op, width b, rate r, bit-order mode, message, bit length L, output length d); rates incl. r<8 and r not a '
         'multiple of 8, L over {0,1,r-2,r-1,r,r+1,2r-2,2r-1,2r,2r+1,..} x L mod 8, d over {1,r,r+1,3r}; distinct lines; '
-        'non-trivial = the implementation returned a value')
+        'per-call rate lines (r=<rc>, setrate=<r1>, module-level objects): rc equal/smaller/larger than the object rate, odd, <8, 0, >=b, >1536, L on the block boundaries of both rates; non-trivial = the implementation returned a value')
 TRUSTED = ['Spec/Keccak.lean renders FIPS 202 at lane level (theta/rho/pi/chi/iota on 25 lanes of w bits); the bit-level reading of '
            'FIPS 202 section 3.2 is cited, not re-proved',
            'validated (supporting only) against hashlib sha3/shake, the vectors of tests/test_keccak.py and an independent Python '
@@ -116,7 +116,7 @@ def rate_call(k, sr, rc, M, L):
     if sr is not None:
         if guarded(lambda: (k.setrate(sr), 'ok')[1]) == 'ERR': return 'ERR|' + attrs()
     kw = {} if rc is None else {'r': rc}
-    if rc == 0:
+    if rc == 0 or k.r == 0:
         # rate 0 handed to iterblocks yields empty blocks for ever: count the yields of this one object
         orig, limit = k.iterblocks, 8 * len(M) + 64
         def counted(*args, **kargs):
@@ -124,6 +124,10 @@ def rate_call(k, sr, rc, M, L):
                 if i > limit: raise _Hang()
                 yield x
         k.iterblocks = counted
+        # any other way of never returning at rate 0 is cut short (the per-line alarm of runcheck, re-armed; SIGALRM
+        # is only touched when runcheck's handler is installed)
+        import signal
+        if callable(signal.getsignal(signal.SIGALRM)): signal.alarm(4)
     def go():
         try: return hx(k(M, bitlen=L, **kw))
         except _Hang: return 'HANG'
